@@ -5553,7 +5553,10 @@ impl<'a, 'graph> Builder<'a, 'graph> {
     let maybe_range = options.maybe_range;
     let maybe_source_phase_referrer = options.maybe_source_phase_referrer;
     let original_specifier = specifier;
-    let specifier = self.graph.redirects.get(specifier).unwrap_or(specifier);
+    // follow the recorded redirects to the end of the chain: the hops in
+    // between hold no entry of their own and must not be requested again
+    let resolved_specifier = self.graph.resolve(specifier).clone();
+    let specifier = &resolved_specifier;
     if options.is_asset {
       // TODO(nayeemrmn): We need to load the module to validate the actual
       // media type for source-phase-import eligibility. Don't treat
